@@ -45,7 +45,11 @@ def run(sid):
                 continue
             env = dict(os.environ, VERIF_REPO=tmp, PYVC_PROCS="6")
             t0 = time.time()
-            rr = subprocess.run(["python3-vt", "-m", "pyvc.check", p], cwd=ROOT, env=env, capture_output=True, text=True, timeout=3600)
+            try:
+                rr = subprocess.run(["python3-vt", "-m", "pyvc.check", p], cwd=ROOT, env=env, capture_output=True, text=True, timeout=5400)
+            except subprocess.TimeoutExpired:
+                res[p] = {"exit": "timeout", "lines": [], "s": round(time.time() - t0)}
+                continue
             lines = [l for l in rr.stdout.splitlines() if l.startswith(("VIOLATION", "UNDECIDED", "CHECKER-ERROR", "KNOWN"))]
             lines.sort(key=lambda l: 0 if l.startswith("VIOLATION") else 1)
             res[p] = {"exit": rr.returncode, "lines": [l[:220] for l in lines[:4]], "s": round(time.time() - t0)}
